@@ -375,8 +375,44 @@ func c09LibraryQueuesDrained(c *Ctx, svcs []Service, listed map[string]bool) {
 				n++
 				key := shortFn(fn) + " range over " + typeShortT(q.Type())
 				w := waitingLoop(fn, l.Blocks, l, 0, map[*ssa.Function]bool{fn: true})
+				// the loop ends only when the library closes the queue: leaving it earlier (return, break) abandons a queue the
+				// connection's reader keeps filling – unless the queue is handed to a drainer first (go ssh.DiscardRequests(q))
+				if w == "" {
+					for lb := range l.Blocks {
+						if lb == l.Header {
+							continue
+						}
+						abandoned := false
+						for _, in := range lb.Instrs {
+							if _, isRet := in.(*ssa.Return); isRet {
+								abandoned = true
+							}
+						}
+						for _, sb := range lb.Succs {
+							if !l.Blocks[sb] {
+								abandoned = true
+							}
+						}
+						if !abandoned {
+							continue
+						}
+						drained := false
+						for _, cl := range Calls(fn) {
+							if g, isGo := cl.(*ssa.Go); isGo {
+								for _, a := range g.Call.Args {
+									if libraryOwnedChan(a) && (g.Block() == lb || g.Block().Dominates(lb)) {
+										drained = true
+									}
+								}
+							}
+						}
+						if !drained {
+							w = "the loop can be left at " + p.InstrPos(lb.Instrs[len(lb.Instrs)-1]) + " while the queue is still open (no drainer takes it over)"
+						}
+					}
+				}
 				c.Check(w == "", "library-queue-drained", key, p.Pos(l.Header.Instrs[0].Pos()), "the loop body does not wait for the peer inline (sessions and shells run in goroutines of their own)",
-					"this loop takes items from a bounded queue that the ssh library fills on the connection's reader goroutine, and its body waits for the peer inline: "+w+". Items that arrive meanwhile (window-change requests, channel opens) fill the queue (16), the reader blocks on it and sees neither data, the client's close nor the idle deadline: the handler never returns")
+					"this loop takes items from a bounded queue that the ssh library fills on the connection's reader goroutine, and it does not keep taking them: "+w+". Items that arrive meanwhile (window-change requests, channel opens) fill the queue (16), the reader blocks on it and sees neither data, the client's close nor the idle deadline: the handler never returns")
 			}
 		}
 	}
